@@ -84,15 +84,42 @@ func init() {
 				if _, isPhi := base.(*ssa.Phi); isPhi && !(okA && okB) {
 					// the chunk was selected earlier (e.g. "latest = c" in a scan loop):
 					// every value that can flow into the φ must have been guarded where it was selected
-					leaves := phiLeaves(base)
-					okA, okB = len(leaves) > 0, len(leaves) > 0
-					for _, l := range leaves {
-						if l.From == nil || !factsAt(l.From, BoolCond(isFieldLoadOn(acked, l.Val), false)) {
+					// (a value that is itself a φ — e.g. the loop variable of "for c, ok := get(); ok; c, ok = get()" —
+					// is accepted where the guard holds for it on the selecting edge; otherwise its inputs are examined)
+					okA, okB = true, true
+					nLeaves := 0
+					seenPhi := map[*ssa.Phi]bool{}
+					var walk func(v ssa.Value, from *ssa.BasicBlock)
+					walk = func(v ssa.Value, from *ssa.BasicBlock) {
+						if k, isK := v.(*ssa.Const); isK && k.Value == nil {
+							return
+						}
+						phi, isPhi := v.(*ssa.Phi)
+						if isPhi && seenPhi[phi] {
+							return // a value carried round the loop: judged where it was selected
+						}
+						if from != nil && factsAt(from, BoolCond(isFieldLoadOn(acked, v), false)) && factsAt(from, CallCond(ab, false, IsValue(v))) {
+							nLeaves++
+							return
+						}
+						if isPhi {
+							seenPhi[phi] = true
+							for i, e := range phi.Edges {
+								walk(e, phi.Block().Preds[i])
+							}
+							return
+						}
+						nLeaves++
+						if from == nil || !factsAt(from, BoolCond(isFieldLoadOn(acked, v), false)) {
 							okA = false
 						}
-						if l.From == nil || !factsAt(l.From, CallCond(ab, false, IsValue(l.Val))) {
+						if from == nil || !factsAt(from, CallCond(ab, false, IsValue(v))) {
 							okB = false
 						}
+					}
+					walk(base, nil)
+					if nLeaves == 0 {
+						okA, okB = false, false
 					}
 				}
 				c.Check(okA && okB, ks.key("rearm-guard@"+where), c.Pos(in), "dominated by !chunk.acked ∧ !chunk.abandoned() for the same chunk",
